@@ -202,7 +202,7 @@ def toy_model_cases(rng, tier):
         for P in allp:
             yield _case("neg %s %s" % (c, pa(P)), ["neg", cd, P])
         # multiply: all points x k in [-2n, 2n]
-        full = first_of_p or tier == "thorough"
+        full = first_of_p or (tier == "thorough" and p <= 47)
         mpts = allp if full else [None] + rng.sample(pts, min(4, len(pts)))
         for P in mpts:
             for k in range(-2 * n, 2 * n + 1):
